@@ -291,6 +291,30 @@ fn modify<ID: Eq + Hash, C: Conditions>(
     modified: ID,
     access: Access<C>,
 ) -> Result<GroupMembersState<ID, C>, GroupMembershipError<ID>> {
+    let modified = validate_modify(&state, modifier, modified)?;
+
+    // Update access level.
+    let mut state = state;
+    state.members.entry(modified).and_modify(|modified| {
+        // Only perform the modification if the access levels differ.
+        if modified.access != access {
+            modified.access = access;
+            modified.access_counter += 1;
+        }
+    });
+
+    Ok(state)
+}
+
+/// Validate that the `modifier` is allowed to change the access level of the `modified` identity.
+///
+/// The `modifier` must be an active member of the group with `Manage` access and the `modified`
+/// identity must be an active member of the group. Returns the `modified` identity on success.
+fn validate_modify<ID: Eq + Hash, C: Conditions>(
+    state: &GroupMembersState<ID, C>,
+    modifier: ID,
+    modified: ID,
+) -> Result<ID, GroupMembershipError<ID>> {
     // Ensure that "modifier" is known to the group.
     let Some(modifier_state) = state.members.get(&modifier) else {
         return Err(GroupMembershipError::UnrecognisedActor(modifier));
@@ -312,17 +336,7 @@ fn modify<ID: Eq + Hash, C: Conditions>(
         return Err(GroupMembershipError::UnrecognisedMember(modified));
     }
 
-    // Update access level.
-    let mut state = state;
-    state.members.entry(modified).and_modify(|modified| {
-        // Only perform the modification if the access levels differ.
-        if modified.access != access {
-            modified.access = access;
-            modified.access_counter += 1;
-        }
-    });
-
-    Ok(state)
+    Ok(modified)
 }
 
 /// Promote a group member to the given access level.
@@ -340,8 +354,10 @@ pub fn promote<ID: Eq + Hash, C: Conditions>(
     access: Access<C>,
 ) -> Result<GroupMembersState<ID, C>, GroupMembershipError<ID>> {
     if let Some(member) = state.members.get(&promoted) {
-        // No action is required if the member is already set to the highest access level.
+        // No modification is required if the member is already set to the highest access level,
+        // the promoter and the promoted member still need to be valid.
         let new_state = if member.is_manager() {
+            validate_modify(&state, promoter, promoted)?;
             state
         } else {
             modify(state, promoter, promoted, access)?
@@ -368,8 +384,10 @@ pub fn demote<ID: Eq + Hash, C: Conditions>(
     access: Access<C>,
 ) -> Result<GroupMembersState<ID, C>, GroupMembershipError<ID>> {
     if let Some(member) = state.members.get(&demoted) {
-        // No action is required if the member is already set to the lowest access level.
+        // No modification is required if the member is already set to the lowest access level,
+        // the demoter and the demoted member still need to be valid.
         let new_state = if member.is_puller() {
+            validate_modify(&state, demoter, demoted)?;
             state
         } else {
             modify(state, demoter, demoted, access)?
